@@ -62,6 +62,7 @@ const (
 	errUpdateClaimStatus    = "cannot update claim status"
 
 	errFmtUnbound = "refusing to operate on composite resource %q that is not bound to this claim: bound to claim %q"
+	errFmtOwned   = "refusing to operate on composite resource %q that is controlled by %s %q"
 )
 
 const reconcilePausedMsg = "Reconciliation (including deletion) is paused via the pause annotation"
@@ -370,6 +371,16 @@ func (r *Reconciler) Reconcile(ctx context.Context, req reconcile.Request) (reco
 	// this is not an issue.
 	if ref := xr.GetClaimReference(); meta.WasCreated(xr) && ref != nil && !cmp.Equal(cm.GetReference(), ref) {
 		err := errors.Errorf(errFmtUnbound, xr.GetName(), ref.Name)
+		record.Event(cm, event.Warning(reasonBind, err))
+		cm.SetConditions(xpv1.ReconcileError(err))
+		return reconcile.Result{Requeue: false}, errors.Wrap(r.client.Status().Update(ctx, cm), errUpdateClaimStatus)
+	}
+
+	// Return early if the claim references an XR that another resource
+	// controls, e.g. an XR that was composed by another XR. A claim never
+	// controls its XR, so such an XR is not ours to bind, update or delete.
+	if c := metav1.GetControllerOf(xr); meta.WasCreated(xr) && c != nil {
+		err := errors.Errorf(errFmtOwned, xr.GetName(), c.Kind, c.Name)
 		record.Event(cm, event.Warning(reasonBind, err))
 		cm.SetConditions(xpv1.ReconcileError(err))
 		return reconcile.Result{Requeue: false}, errors.Wrap(r.client.Status().Update(ctx, cm), errUpdateClaimStatus)
